@@ -619,9 +619,36 @@ func TestVerifReplay(t *testing.T) {
 			if i != j && a.Equals(b) { t.Fatalf("different values %d, %d equal", i, j) }
 		}
 	}
+	// arrays: every list of length 0..3 over {nil, null, 1, 2, 1L, "1", true} against every other one: equal exactly when
+	// they have the same length and the same element (by position) everywhere
+	mk := []func() *Variant{func() *Variant { return nil }, EmptyVariant, func() *Variant { return VariantFromInteger(1) }, func() *Variant { return VariantFromInteger(2) },
+		func() *Variant { return VariantFromLong(1) }, func() *Variant { return VariantFromString("1") }, func() *Variant { return VariantFromBoolean(true) }}
+	var lists [][]int
+	var genl func(cur []int)
+	genl = func(cur []int) {
+		lists = append(lists, append([]int{}, cur...))
+		if len(cur) == 3 { return }
+		for k := range mk { genl(append(cur, k)) }
+	}
+	genl(nil)
+	build := func(l []int) *Variant {
+		a := make([]*Variant, len(l))
+		for i, k := range l { a[i] = mk[k]() }
+		return VariantFromArray(a)
+	}
+	for _, l1 := range lists {
+		if len(l1) == 3 && l1[0] > 2 { continue }
+		a := build(l1)
+		for _, l2 := range lists {
+			same := len(l1) == len(l2)
+			for i := 0; same && i < len(l1); i++ { same = l1[i] == l2[i] }
+			b := build(l2)
+			if a.Equals(b) != same || b.Equals(a) != same { t.Fatalf("arrays %v and %v: Equals = %v, %v, want %v", l1, l2, a.Equals(b), b.Equals(a), same) }
+		}
+	}
 }
 '''
-        return 'variants', src, 'all sequences of <= 3 array operations (SetByIndex/SetLength 0..6, clone) on arrays of length 0..2 (positions distinct objects, in-place writes into padded nulls); assign and clone against the value model; equality on one value per scalar type and on objects of uncomparable Go types; nil variants'
+        return 'variants', src, 'all pairs of arrays of length 0..3 over 7 element values (nil included) equal exactly when equal position by position; all sequences of <= 3 array operations (SetByIndex/SetLength 0..6, clone) on arrays of length 0..2 (positions distinct objects, in-place writes into padded nulls); assign and clone against the value model; equality on one value per scalar type and on objects of uncomparable Go types; nil variants'
 
     def inputs(self):
         d = {}
